@@ -44,6 +44,7 @@ fn main() {
     match sub.as_str() {
         "noop" => {}
         "wal-dump" => e2e::wal_dump(&args),
+        "gossip-frames" => e2e::gossip_frames(&args),
         "dbg-dst" => {
             use redis_sim::redis::{ExecutorDSTConfig, ExecutorDSTHarness};
             let seed = args.seed;
